@@ -308,16 +308,17 @@ grammar = Grammar(
     statements_elements  = statements_element*
     statements_element   = ":" space* statement? space*
     statements_else      = statements
-    exp             = "NOT"? space* num_exp space*
+    exp             = num_exp space*
     if_exp          = bool_exp
                     / num_exp
-    bool_exp              = "NOT"? space* bool_or_exp
+    bool_exp              = bool_or_exp
     bool_or_exp           = bool_and_exp space* bool_or_exp_elements
     bool_or_exp_elements  = bool_or_exp_element*
     bool_or_exp_element   = "OR" space* bool_and_exp space*
-    bool_and_exp          = bool_val_exp space* bool_and_exp_elements
+    bool_and_exp          = bool_not_exp space* bool_and_exp_elements
     bool_and_exp_elements = bool_and_exp_element*
-    bool_and_exp_element  = "AND" space* bool_val_exp space*
+    bool_and_exp_element  = "AND" space* bool_not_exp space*
+    bool_not_exp          = "NOT"? space* bool_val_exp
     bool_val_exp    = bool_paren_exp
                     / bool_str_exp
                     / bool_bin_exp
@@ -327,9 +328,10 @@ grammar = Grammar(
     num_exp              = num_and_exp space* num_exp_elements
     num_exp_elements     = num_exp_element*
     num_exp_element      = "OR" space* num_and_exp space*
-    num_and_exp          = num_gtle_exp space* num_and_exp_elements
+    num_and_exp          = num_not_exp space* num_and_exp_elements
     num_and_exp_elements = num_and_exp_element*
-    num_and_exp_element  = "AND" space* num_gtle_exp space*
+    num_and_exp_element  = "AND" space* num_not_exp space*
+    num_not_exp          = "NOT"? space* num_gtle_exp
     num_gtle_exp         = num_sum_exp space* num_glte_sub_exps
     num_glte_sub_exps    = num_glte_sub_exp?
     num_glte_sub_exp     = (("<=" / ">=" / "<>" / "<" / ">" / "=>" / "=<" / "=") space* num_sum_exp space*)
